@@ -95,6 +95,9 @@ type startRes struct {
 type env struct {
 	c *sim.Ctx
 	s *sched
+	// first mismatch between the registry the node builds and the released schema noted in this run
+	// (migs.go: registryShape; reported by C18 when the run ends)
+	shape *mismatch
 }
 
 func readStates(c *sim.Ctx, r db.KeyValueReader, n int) map[int][]byte {
